@@ -1017,3 +1017,51 @@ def prune_infeasible(fn, max_rounds=6):
         if not changed:
             break
     return removed
+
+
+def clone_cfg(fn):
+    """Copy of fn whose block graph (succ/term) can be edited; events are shared."""
+    import copy as _copy
+    g = _copy.copy(fn)
+    g.blocks = {}
+    for b, blk in fn.blocks.items():
+        nb = _copy.copy(blk)
+        nb.succ = list(blk.succ)
+        nb.term = dict(blk.term) if blk.term else None
+        g.blocks[b] = nb
+    g._preds = None
+    return g
+
+
+def force_edges(fn, pred_edge):
+    """Clone with every conditional edge for which pred_edge(block, succ index,
+    atoms) is False removed."""
+    g = clone_cfg(fn)
+    for b, blk in g.blocks.items():
+        if blk.term and blk.term.get('cond') is not None and len(blk.succ) == 2 \
+                and blk.term.get('cls') not in ('SwitchStmt', 'MethodDispatch'):
+            keep = []
+            for si in (0, 1):
+                if pred_edge(blk, si, norm_cond(blk.term['cond'], si == 0)) is not False:
+                    keep.append(si)
+            if len(keep) == 1:
+                blk.succ = [blk.succ[keep[0]]]
+                blk.term = dict(blk.term, cls='Forced')
+                blk.term.pop('cond', None)
+    return g
+
+
+def list_empty_test(atom, member_key=None, canon_arg=None):
+    """If atom is a truth test of iv_list_empty(&X) returns 'empty'/'nonempty'
+    for X matching member_key (record, field) or canon string."""
+    (op, lc, rc, l, r) = atom
+    c = strip(l)
+    if not (isinstance(c, dict) and c.get('k') == 'call' and c.get('callee') == 'iv_list_empty' and rc == '0'):
+        return None
+    a = strip(c['args'][0])
+    if member_key is not None:
+        if not (isinstance(a, dict) and a.get('k') == 'addr' and last_member(a['e']) == member_key):
+            return None
+    if canon_arg is not None and canon(c['args'][0]) != canon_arg:
+        return None
+    return 'empty' if op == '!=' else 'nonempty'
